@@ -244,16 +244,17 @@ Definition open_responder (e : ep) (f : frame) (o : outcome) : ep * list effect 
   | _, _ => (e, [])
   end.
 
-(* an application handler about which the label says nothing returns ordinary objects *)
+(* which handler runs is decided by the frame's type; the label only says whether it raises and, for a channel, which
+   of publisher / subscriber it returns (anything else: both) *)
 Definition default_outcome (f : frame) (o : outcome) : outcome :=
   match o with
-  | ONone => match f with
-             | FRequestResponse _ _ _ _ _ => OFuture
-             | FRequestStream _ _ _ _ _ _ => OPublisher
-             | FRequestChannel _ _ _ _ _ _ _ => OChannel true true
-             | _ => ONone
-             end
-  | _ => o
+  | ORaise => ORaise
+  | _ => match f with
+         | FRequestResponse _ _ _ _ _ => OFuture
+         | FRequestStream _ _ _ _ _ _ => OPublisher
+         | FRequestChannel _ _ _ _ _ _ _ => match o with OChannel hp hs => OChannel hp hs | _ => OChannel true true end
+         | _ => o
+         end
   end.
 
 Definition recv_dispatch (e : ep) (f : frame) (o0 : outcome) (utf8 : bool) : ep * list effect :=
